@@ -426,6 +426,43 @@ def run(ctx):
             S.add('spl %d %s %s %s %d %s' % (p, kvd, cd, usd, len(sets), ' '.join(sets)), 'sets=%s' % ' '.join(['ok'] * len(sets)),
                   verdict_kind(names, oracles, 'spline-eval'), None, dict(info, coeffs=c.tolist()))
 
+        # --- point arrays with ndim >= 2 whose memory order differs from index order (Fortran order, transposed view, strided slice):
+        # the value at index I of the result must belong to the point at index I
+        m2 = (m // 2) * 2
+        if m2 >= 4:
+            base = us[:m2]
+            variant = int(rng.integers(0, 4))
+            if variant == 0:
+                U2 = np.asfortranarray(base.reshape(2, -1)); vname = 'F-order'
+            elif variant == 1:
+                U2 = base.reshape(-1, 2).T; vname = 'transposed view'
+            elif variant == 2:
+                big = np.zeros((m2 // 2, 6)); big[:, 1::3] = base.reshape(-1, 2); U2 = big[:, 1::3].T; vname = 'transposed strided slice'
+            else:
+                U2 = np.asfortranarray(base.reshape(2, 1, -1)); vname = 'F-order 3-d'
+            flat = np.array(U2, order='C').ravel()          # points in index order
+            nroutes = [('ev[nd points, %s]' % vname, F_SPLEV, 0, lambda: bspline.ev(KV, c, U2))]
+            nroutes += [('deriv[nd points, %s, der=%d]' % (vname, kk), F_SPLEV, kk, (lambda kk=kk: bspline.deriv(KV, c, kk, U2)))
+                        for kk in range(1, kmax_spl + 1)]
+            names, oracles, sets = [], [], []
+            for nm, fct, kk, fn in nroutes:
+                def f(fn=fn):
+                    y = np.asarray(fn(), dtype=float)
+                    if y.shape != U2.shape:
+                        raise ValueError('shape %s for points of shape %s' % (y.shape, U2.shape))
+                    return np.array(y, order='C').ravel()
+                y = guarded(f)
+                ctx.count('route nd-points ' + nm.split('[')[0])
+                sorc = make_spl_oracle(k, p, c, flat, kk, (lambda fn=fn: np.array(np.asarray(fn(), dtype=float), order='C').ravel()))
+                if isinstance(y, str):
+                    S.add('rows 0 0 0 0 0', 'impl-' + y, nm, sorc, dict(info, coeffs=c.tolist(), points=U2.tolist()))
+                    continue
+                names.append(nm); oracles.append(sorc)
+                sets.append('%d %d %s' % (fct, kk, plist(y, frac)))
+            if sets:
+                S.add('spl %d %s %s %s %d %s' % (p, kvd, cd, plist(flat, frac), len(sets), ' '.join(sets)), 'sets=%s' % ' '.join(['ok'] * len(sets)),
+                      verdict_kind(names, oracles, 'spline-eval[nd points]'), None, dict(info, coeffs=c.tolist(), points=U2.tolist()))
+
         # --- 2-D tensor product (every 4th knot vector, paired with a fresh small one)
         if it % 4 == 0:
             k2, p2, _ = gen_kv(rng, pmax=4, maxspans=4)
